@@ -67,7 +67,7 @@ Definition returned_direct (s : script) : bool :=
 Ltac cunf := unfold direct_object, direct_history, direct_fate, natural_events, has_object, returned_direct, result, no_cancel,
   fallback_nc, race_nc, direct, indirect, connect_end, lookup, d_connecting, running_at, end_time, ind_send_raises, server_alive,
   ind_fail_residue, ind_cancel_residue, dir_cancel_residue, loser_indirect, loser_direct, loser_orphan, F,
-  PEER_CONNECT_TIMEOUT, PEER_INDIRECT_CONNECT_TIMEOUT, LOOKUP_HAS_TIMEOUT, LOOKUP_TIMEOUT in *.
+  DIRECT_FAILURES_FALL_BACK, PEER_CONNECT_TIMEOUT, PEER_INDIRECT_CONNECT_TIMEOUT, LOOKUP_HAS_TIMEOUT, LOOKUP_TIMEOUT in *.
 
 Ltac cases :=
   repeat match goal with
